@@ -38,11 +38,15 @@ for tagSet, typeDecoder in list(TAG_MAP.items()):
 
 TYPE_MAP = decoder.TYPE_MAP.copy()
 
-# Put in non-ambiguous types for faster codec lookup
-for typeDecoder in TAG_MAP.values():
+# Put in non-ambiguous types for faster codec lookup. The codecs overridden
+# above must also serve lookups by type ID, which take precedence whenever
+# `asn1Spec` is given
+for tagSet, typeDecoder in TAG_MAP.items():
     if typeDecoder.protoComponent is not None:
         typeId = typeDecoder.protoComponent.__class__.typeId
-        if typeId is not None and typeId not in TYPE_MAP:
+        if typeId is not None and (
+                typeId not in TYPE_MAP or
+                typeDecoder is not decoder.TAG_MAP.get(tagSet)):
             TYPE_MAP[typeId] = typeDecoder
 
 
